@@ -107,8 +107,15 @@ impl Line {
         };
         let wabs: f64 = w.iter().sum::<f64>() + self.d as f64 / 2.0 * self.l as f64;
         // comfortably accepted: every proper omega and dod well above the rounding of the code's own omega
-        if !dod.is_positive() || q2f(&dod) < 1e6 * f64::EPSILON * wabs { return None; }
-        for id in 1..n - 1 { if !gd[id].is_positive() || q2f(&gd[id]) < 1e6 * f64::EPSILON * wabs { return None; } }
+        // ... and, where omega is a DIFFERENCE (a loop or the spanning term is subtracted), large enough that the rounding
+        // eps W of the code's own omega is below 1e-10 of it: the exponents 1/omega and the edge probabilities of the code then
+        // agree with the exact ones far inside every guard band used below.  A sum of positive weights (no loop, not spanning)
+        // is exact to a few ulp whatever its size, so tiny omegas of that kind stay in.
+        if !dod.is_positive() || q2f(&dod) < 1e10 * f64::EPSILON * wabs { return None; }
+        for id in 1..n - 1 {
+            let cancels = as_i64(&inst["l"][id]) > 0 || inst["s"][id].as_bool().unwrap_or(false);
+            if !gd[id].is_positive() || (cancels && q2f(&gd[id]) < 1e10 * f64::EPSILON * wabs) { return None; }
+        }
         let mut jq: Vec<Q> = vec![Q::one(); n];
         for id in 1..n { jq[id] = (0..e).filter(|b| id >> b & 1 == 1).fold(Q::zero(), |a, b| { let sub = id ^ (1 << b); a + &jq[sub] / &gd[sub] }); }
         let mut cum: Vec<Vec<Option<f64>>> = vec![vec![]; n];
@@ -151,6 +158,8 @@ impl Line {
         a.max(b)
     }
 }
+
+fn half_d_of(line: &Line) -> f64 { line.d as f64 / 2.0 }
 
 pub(crate) fn getlog<'a>(log: &'a [(String, Value)], key: &str) -> Option<&'a Value> {
     log.iter().find(|(k, _)| k == key).map(|(_, v)| v)
@@ -387,13 +396,20 @@ fn check_point(cx: &mut Ctx, s: &dyn DynSampler, cached_spec: Option<f64>, ri: u
         let mut id = (1usize << e) - 1;
         let mut kappa = 1.0f64;
         let mut bad = vec![];
+        // the code's omega is a difference of doubles of size W = sum w + D/2 L + dod: its absolute rounding ~ eps W becomes a
+        // relative error eps W / omega of the exponent 1/omega and |ln xi| / omega times that in xi^(1/omega) (it matters for
+        // the re-weighted lines, where omega may be as small as 1e-9 W)
+        let wsum: f64 = line.g.weights().iter().sum::<f64>() + half_d_of(line) * l as f64 + line.dod.abs();
+        let mut amp = 0.0f64;
         for k in 0..e {
             let edge = ord[k];
-            if !close(xun[edge], kappa, 1e-12) { bad.push(json!({"k": k, "edge": edge, "code": xun[edge], "spec": kappa})); }
+            if !close(xun[edge], kappa, 1e-12 + amp) { bad.push(json!({"k": k, "edge": edge, "code": xun[edge], "spec": kappa, "tol": 1e-12 + amp})); }
             id ^= 1 << edge;
             if id != 0 {
                 let xi = x[2 * k + 1];
-                kappa *= xi.powf(1.0 / line.gd[id]);
+                let om = line.gd[id];
+                kappa *= xi.powf(1.0 / om);
+                amp += xi.ln().abs() / om * (8.0 * f64::EPSILON * wsum / om);
             }
         }
         if !bad.is_empty() { cx.viol("C07", "Feynman parameters do not follow prod_j xi_j^(1/omega(g_j))".into(), ri, x, json!({"bad": bad, "order": ord})); }
